@@ -80,3 +80,19 @@ PROPS = {
         "assumptions": ["any std hasher is a function of the write stream"],
     },
 }
+
+TB_ENUM = TB_COMMON + [
+    "hand-written control skeleton of the enum parser / formatter models (Model/EnumParser.v, Model/EnumFormatter.v) tied by the correspondence check; keyword tables, arm lists and parser-state facts regenerated (T1, T3, T5)",
+    "f64 Display is an oracle table written by the harness; f64 FromStr re-implemented over Flocq (Base/FloatDec.v) and differentially checked; char::is_alphanumeric is a range table dumped from std (Gen/Unicode.v)",
+    "nar_dev_utils helpers (starts_with_str incl. its proper-prefix defect, join_lest_multiple_separators, add_space_if_necessary_and_flush_buffer) modelled from their source",
+]
+for _p in ["C01", "C04", "C08", "C09", "C10", "C12", "C15"]:
+    PROPS[_p] = {
+        "props": [],
+        "run": ["Run/EnumRun.v"],
+        "tables": ["T1", "T3", "T4", "T5"],
+        "n_quick": 300,
+        "n_thorough": 3000,
+        "trusted_base": TB_ENUM,
+        "assumptions": [],
+    }
